@@ -412,6 +412,8 @@ def l24(count):
     check(addr not in ctxt.connections, 'an unauthenticated datagram does not promote the peer to the connection pool')
     check(connects == [], 'no connect event from an unauthenticated datagram')
     check(sv.status != Status.CONNECTED, 'the connection is not CONNECTED without a proof of key')
+    check(len(sv.incoming_messages) == 0 and len(sv.received_fragments) == 0,
+          'nothing that travels in a clear-text datagram next to a hello reaches the application')
     if sv.session_key_bytes is None:
         check(sv.token == 0, 'no token is issued without a key exchange')
     else:
